@@ -862,11 +862,13 @@ def build_cli(sm=False):
 
 
 def check_C16(ctx):
-    ctx.rules += ["vtool det: N definitions with many states/edges/LUTs (keyword lexers, Unicode classes, ambiguity-rejected definitions, loops) are each generated in T threads per process (fresh hash-map keys per thread, "
-                  "alternating traversal order) and in P separate processes; FNV hashes of the emitted code string and of the captured graph must be identical across all P*T runs, for both code generators. "
+    ctx.rules += ["vtool det: N definitions with many states/edges/LUTs (keyword lexers, Unicode classes, ambiguity-rejected definitions, loops), groups of look-alike definitions (identically spelled literals that differ in "
+                  "ignore(case), subpattern bodies or token/regex) and the fixed specimens of the must-reject categories (diagnostic texts) are each generated in T threads per process (fresh hash-map keys per thread; "
+                  "every thread of every process walks the definitions in another order: forward, reverse, rotated, shuffled, so each definition is generated after many different histories) and in P separate processes; "
+                  "FNV hashes of the emitted code/diagnostic string and of the captured graph must be identical across all P*T runs, for both code generators. "
                   "logos-cli (real binary, both generators): the same input generated twice into different files gives identical bytes and --check accepts the other run's output. "
                   "Non-trivial: definitions with at least 8 graph states."]
-    n = 100 if ctx.tier == "quick" else 600
+    n = 160 if ctx.tier == "quick" else 1200
     procs = 6 if ctx.tier == "quick" else 16
     threads = 4 if ctx.tier == "quick" else 8
     contexts = 0
@@ -874,7 +876,7 @@ def check_C16(ctx):
         build_harness(sm)
         outs = []
         def one(p):
-            return json.loads(vtool(["det", "--seed", str(ctx.seed), "--count", str(n), "--threads", str(threads)], sm=sm))
+            return json.loads(vtool(["det", "--seed", str(ctx.seed), "--count", str(n), "--threads", str(threads), "--proc", str(p)], sm=sm))
         with ThreadPoolExecutor(max_workers=procs) as ex:
             outs = list(ex.map(one, range(procs)))
         for o in outs:
@@ -888,11 +890,11 @@ def check_C16(ctx):
                                    "detail": f"definition #{k}: process 0 hashes {ref[k]}, process {pi} hashes {o['hashes'][k]} (seed {ctx.seed})",
                                    "definition_index": k})
         contexts += procs * threads
-        ctx.coverage["evaluations"] += n * procs * threads
+        ctx.coverage["evaluations"] += outs[0]["definitions"] * procs * threads
         if not sm:
             ctx.coverage["distinct_nontrivial"] += outs[0]["definitions_with_8_or_more_states"]
             ctx.coverage["samples"].append({"definition": outs[0]["sample"], "hashes": ref[0]})
-        ctx.add_stage("det:" + ("sm" if sm else "tc"), {"definitions": n, "processes": procs, "threads": threads, "definitions_with_8_or_more_states": outs[0]["definitions_with_8_or_more_states"]})
+        ctx.add_stage("det:" + ("sm" if sm else "tc"), {"definitions": outs[0]["definitions"], "fixed_specimens": outs[0]["fixed_specimens"], "processes": procs, "threads": threads, "definitions_with_8_or_more_states": outs[0]["definitions_with_8_or_more_states"], "rejected_definitions": outs[0].get("rejected_definitions")})
     ctx.coverage["hash_seed_contexts"] = contexts
     # CLI
     cdir = os.path.join(WORK, "cli16")
